@@ -1491,12 +1491,12 @@ def renumbered_builder(ctx, rule, body, g, index_of=None, what="", outer="derive
     return maps
 
 
-def reachable_sites(body, g, sites, valuation, limit=300):
+def reachable_sites(body, g, sites, valuation, limit=300, start=0):
     """which of the blocks `sites` can be reached when the opaque sub-terms of the branch conditions take the values given by
     `valuation(term) -> int | None` (None = not fixed: the condition may go either way).  Path conditions of all acyclic paths from the entry."""
     out = set()
     for bb in sites:
-        for tg, ats in paths_to(body, 0, {bb}, g=g, limit=limit):
+        for tg, ats in paths_to(body, start, {bb}, g=g, limit=limit):
             ok = True
             for a in ats:
                 if a[0] in ("variant", "notvariant"):
@@ -1570,3 +1570,23 @@ def bool_results(body, g, valuation):
         v = eval_term_env(fold_std_ops(t), env)
         out.add(None if v is None else bool(v))
     return out
+
+
+def op_fallback_is_fixed_point(ctx, rule, body, g, allow_zero=False):
+    """`op(k, x).unwrap_or(y)`: an undefined operation leaves the walk where it is, so the fallback y is the chamber x the operation was applied
+    to (any other chamber - the previous one, the start - silently glues two open ends of a partial D-set together or walks in place).
+    `allow_zero`: the printer's `unwrap_or(0)` marker.  Returns the number of sites."""
+    n = 0
+    for bi, t in body.calls("Option::<T>::unwrap_or"):
+        a = [strip(norm(body.origin(x), g)) for x in t["args"]]
+        if not (is_call(a[0], "::op") and len(a[0][2]) == 3):
+            continue
+        if allow_zero and eval_int(a[1]) == 0:
+            continue
+        n += 1
+        x = strip(a[0][2][2])
+        ok = x == a[1]
+        ctx.ob(rule, body.name, "op(k, x).unwrap_or(x)", "ok" if ok else "violation",
+               "an undefined operation leaves the chamber where it is" if ok else
+               "the fallback of an undefined operation is not the chamber it was applied to: op(_, %s).unwrap_or(%s)" % (show(x, 1)[:40], show(a[1], 1)[:40]), body.span_of(bi))
+    return n
